@@ -388,8 +388,11 @@ let note_enq impl_all =
 
 (* every transmission the implementation makes: at most RetryCount+1 per request (a probe: 1), one more for
    each connection reset in between, and no closer than RetryInterval to the previous one unless a reset intervened *)
-let check_tx opidx impl_all now =
+let check_tx opidx impl_all now0 tick =
+  let k = ref 0 in
   List.iter (function [ sv; id; p ] ->
+      let now = now0 + (if tick then !k else 0) in      (* in tick mode the clock advances one second per transmission *)
+      incr k;
       let srv = int_of_string sv in
       (match Hashtbl.find_opt txhist (srv, int_of_string id), List.assoc_opt srv !servers with
        | Some r, Some sc when r.tx_bytes = p ->
@@ -628,11 +631,12 @@ let op_wpass opidx impl_all toks =
       let s = get_state () in
       check_writer_pass opidx impl_all (int_of_string srv) (rest = [ "putfail" ]);
       note_enq impl_all;
-      check_tx opidx impl_all (int_of_string now);
+      check_tx opidx impl_all (int_of_string now) (rest = [ "tick" ]);
       List.iter (function [ sv; _; p ] -> check_request_out opidx (int_of_string sv) (bytes_of_hex p) | _ -> ()) (impl_events impl_all "tx");
       List.iter (function [ sv; _; p ] -> check_request_out opidx (int_of_string sv) (bytes_of_hex p) | _ -> ()) (impl_events impl_all "enq");
       let putfail = (rest = [ "putfail" ]) in
-      let s, o = writer_release md5 (config ()) fs (nat_of_int 4) s (nat_of_int (int_of_string srv)) (z_of_int (int_of_string now)) (bytes_of_hex rnd) putfail in
+      let tick = if rest = [ "tick" ] then z_of_int 1 else Z0 in
+      let s, o = writer_release md5 (config ()) fs (nat_of_int 4) s (nat_of_int (int_of_string srv)) (z_of_int (int_of_string now)) tick (bytes_of_hex rnd) putfail in
       st := Some s;
       print_outs opidx o ~wake_first:true; print_state opidx s
   | _ -> ()
